@@ -1,5 +1,55 @@
-(** C12 -- placeholder while the proofs are built *)
-From RL Require Import Model.Decode.
-Theorem C12_placeholder : m_decode strict_opts [] = Val (Err [IncompleteFlags], []).
+(** C12 -- Hidden values equal the RFC 2661 section 4.3 construction.
+    [s_hide_value] / [s_reveal] (Spec/SpecHide.v) are the RFC text transcribed and
+    share no definition with Model/Hide.v (one buffer, index arithmetic, forward
+    loop over 1..n_chunks, reverse loop in reveal).  The MD5 used by the executors is
+    Base/Md5.v, validated by the RFC 1321 test suite (Proofs/Md5Facts.v). *)
+From RL Require Import Base.Md5 Model.Decode Model.Encode Model.Hide Spec.SpecEncode Spec.SpecDecode
+  Spec.SpecHide Proofs.Hiding Proofs.Md5Facts.
+
+Theorem C12_hide_is_rfc : forall (H : list N -> list N), (forall x, len (H x) = 16) ->
+  forall a secret rv lp ap,
+  is_hidden a = false -> avp_fits a = true -> attr_type a < 65536 -> len ap = 16 ->
+  m_hide H a secret rv lp ap =
+  Val (AHidden (attr_type a) (s_hide_value H (attr_type a) (s_value a) secret rv lp ap)).
+Proof. exact hide_refines. Qed.
+
+Theorem C12_hidden_length : forall (H : list N -> list N), (forall x, len (H x) = 16) ->
+  forall t payload secret rv lp ap, 15 <= len ap ->
+  len (s_hide_value H t payload secret rv lp ap) = 16 * ((2 + len payload + len lp + 15) / 16).
+Proof. exact hide_value_length. Qed.
+
+Theorem C12_reveal_is_rfc : forall (H : list N -> list N), (forall x, len (H x) = 16) ->
+  forall t v secret rv, m_reveal H (AHidden t v) secret rv = Val (s_reveal H t v secret rv).
+Proof. exact reveal_refines. Qed.
+
+(** the wire form: H bit set (octet 0 = 64*(l/256) + 3), attribute type in clear *)
+Theorem C12_wire_form : forall t v,
+  s_enc_avp (AHidden t v) =
+  [64 * ((6 + len v) / 256) + 3; (6 + len v) mod 256; 0; 0] ++ be16 t ++ v.
 Proof. reflexivity. Qed.
-Print Assumptions C12_placeholder.
+
+(** the output depends on the alignment padding only through the octets actually used *)
+Theorem C12_unused_padding_inert : forall (H : list N -> list N), (forall x, len (H x) = 16) ->
+  forall t payload secret rv lp ap ap',
+  let k := (16 - (2 + len payload + len lp) mod 16) mod 16 in
+  takeN k ap = takeN k ap' ->
+  s_hide_value H t payload secret rv lp ap = s_hide_value H t payload secret rv lp ap'.
+Proof. exact padding_inert. Qed.
+
+Theorem C12_hide_is_rfc_md5 : forall a secret rv lp ap,
+  is_hidden a = false -> avp_fits a = true -> attr_type a < 65536 -> len ap = 16 ->
+  m_hide md5 a secret rv lp ap =
+  Val (AHidden (attr_type a) (s_hide_value md5 (attr_type a) (s_value a) secret rv lp ap)).
+Proof. exact (hide_refines md5 md5_len). Qed.
+
+Theorem C12_reveal_is_rfc_md5 : forall t v secret rv,
+  m_reveal md5 (AHidden t v) secret rv = Val (s_reveal md5 t v secret rv).
+Proof. exact (reveal_refines md5 md5_len). Qed.
+
+Print Assumptions C12_hide_is_rfc.
+Print Assumptions C12_hidden_length.
+Print Assumptions C12_reveal_is_rfc.
+Print Assumptions C12_wire_form.
+Print Assumptions C12_unused_padding_inert.
+Print Assumptions C12_hide_is_rfc_md5.
+Print Assumptions C12_reveal_is_rfc_md5.
